@@ -318,6 +318,15 @@ type roundSpec struct {
 	via        string
 	txtLen     func(i int) int // padding per item
 	exactSizes []int           // when set: n = len, proto.Size of entry i is forced to exactSizes[i]
+	// file route only: an earlier cache state of [pre] entries was dumped to the
+	// same dump_file (Close) and then flushed (GET /flush) before this round's
+	// items are stored. sameInst: dump, flush and the second dump happen on one
+	// instance (Close called twice); otherwise the file is reloaded by a new
+	// instance (restart) which is then flushed. cycles: extra restarts (load +
+	// Close) of the flushed, still empty cache before the items are stored.
+	pre      int
+	sameInst bool
+	cycles   int
 }
 
 func msgIDs() (func(*dns.Msg) int, func(string) int) {
@@ -366,8 +375,33 @@ func runRoundOnce(id string, r *hx.RNG, sp roundSpec) (hx.Case, bool) {
 	defer os.RemoveAll(dir)
 	var c1 *cache.Cache
 	path := filepath.Join(dir, "dump.bin")
+	fileCache := func() *cache.Cache {
+		return cache.NewCache(&cache.Args{Size: 65536, DumpFile: path, DumpInterval: 1000000}, cache.Opts{})
+	}
+	flush := func(c *cache.Cache) {
+		c.Api().ServeHTTP(httptest.NewRecorder(), httptest.NewRequest(http.MethodGet, "/flush", nil))
+	}
+	preLoaded := -1
 	if sp.via == "file" {
-		c1 = cache.NewCache(&cache.Args{Size: 65536, DumpFile: path, DumpInterval: 1000000}, cache.Opts{})
+		c1 = fileCache()
+		if sp.pre > 0 {
+			now := time.Now()
+			for i := 0; i < sp.pre; i++ {
+				m := genMsg(r, hx.Pick(r, qnames), hx.Pick(r, qtypes), uint32(r.Range(100, 900)), r.Intn(6), 0)
+				c1.VerifStore(cache.VerifItem{Key: "old" + strconv.Itoa(i), Resp: m, Stored: now.Add(-time.Duration(r.Intn(20000)) * time.Millisecond),
+					MsgExp: now.Add(time.Duration(r.Range(1000, 2000)) * time.Second), CacheExp: now.Add(time.Duration(r.Range(2000, 3000)) * time.Second)})
+			}
+			c1.Close() // the earlier state is now on disk
+			if !sp.sameInst {
+				c1 = fileCache() // restart: loads the earlier state
+			}
+			preLoaded = c1.VerifLen()
+			flush(c1)
+			for k := 0; k < sp.cycles; k++ {
+				c1.Close() // dump of the empty cache
+				c1 = fileCache()
+			}
+		}
 	} else {
 		c1 = newCache()
 	}
@@ -569,7 +603,8 @@ func runRoundOnce(id string, r *hx.RNG, sp roundSpec) (hx.Case, bool) {
 		Coq: hx.App("CRound", hx.Z(sp.sub), hx.List(ris), hx.Z(nd), hx.Z(nl), nameLit(name),
 			hx.List(oblocks), hx.Ni(errc), enLit(lo.en), hx.List(loaded)),
 		Desc: map[string]any{"kind": "round", "items": len(items), "blocks": len(blocks), "block_bytes": blens,
-			"loaded": len(loaded), "err": errc, "via": sp.via, "file_bytes": len(file)},
+			"loaded": len(loaded), "err": errc, "via": sp.via, "file_bytes": len(file),
+			"earlier_entries_flushed": sp.pre, "earlier_entries_seen_before_flush": preLoaded, "same_instance": sp.sameInst, "empty_restarts": sp.cycles},
 		FKey: "round",
 	}, unambiguous
 }
@@ -929,7 +964,11 @@ func runServe(id string, r *hx.RNG, k int) []hx.Case {
 		if shape == 0 {
 			shape = 1 // NXDOMAIN is cached for a fixed 30 s whatever its TTL: out of the TTL >= 100 regime
 		}
-		resp := genMsg(r, name, qt, ttl, shape, 0)
+		padLen := 0
+		if len(qs) == 1 {
+			padLen = r.Range(62000, 110000) // one large answer per cache
+		}
+		resp := genMsg(r, name, qt, ttl, shape, padLen)
 		if r.Bool() {
 			// through Exec with an upstream (stored now)
 			ask(c1, q, resp)
@@ -1016,6 +1055,14 @@ func buildTasks(o *hx.Opts) []task {
 		sp   roundSpec
 	}
 	pad := func(n int) func(int) int { return func(int) int { return n } }
+	largeAt := func(k, n int) func(int) int {
+		return func(i int) int {
+			if i == k {
+				return n
+			}
+			return 0
+		}
+	}
 	cat := []rc{
 		{"empty", roundSpec{n: 0}},
 		{"one", roundSpec{n: 1}},
@@ -1032,6 +1079,25 @@ func buildTasks(o *hx.Opts) []task {
 		{"http", roundSpec{n: 150, via: "http", pLazy: 10}},
 		{"file", roundSpec{n: 140, via: "file", pExpiring: 5}},
 		{"file_empty", roundSpec{n: 0, via: "file"}},
+		// the "0 entries" cache through the real callers with an earlier dump on disk:
+		// dump -> (restart) -> /flush -> Close (dump of the empty cache) -> restart must load nothing
+		{"file_flush_empty", roundSpec{n: 0, via: "file", pre: 10}},
+		{"file_flush_empty_1", roundSpec{n: 0, via: "file", pre: 1}},
+		{"file_flush_empty_blocks", roundSpec{n: 0, via: "file", pre: 200}},
+		{"file_flush_empty_same_instance", roundSpec{n: 0, via: "file", pre: 12, sameInst: true}},
+		{"file_flush_empty_restarts", roundSpec{n: 0, via: "file", pre: 7, cycles: 2}},
+		{"file_flush_all_expired", roundSpec{n: 4, pExpiring: 100, via: "file", pre: 9}},
+		{"file_flush_then_items", roundSpec{n: 5, via: "file", pre: 10}},
+		{"file_flush_then_items_same_instance", roundSpec{n: 3, via: "file", pre: 10, sameInst: true, cycles: 1}},
+		// single large answers (entries of 40, 60, 70, 100 KiB and more) among ordinary ones
+		{"large_40k", roundSpec{n: 9, txtLen: largeAt(4, 40000)}},
+		{"large_60k", roundSpec{n: 9, txtLen: largeAt(0, 59000)}},
+		{"large_70k", roundSpec{n: 9, txtLen: largeAt(8, 68000)}},
+		{"large_100k", roundSpec{n: 21, txtLen: largeAt(10, 98000), via: "http"}},
+		{"large_100k_file", roundSpec{n: 21, txtLen: largeAt(3, 98000), via: "file"}},
+		{"large_alone", roundSpec{n: 1, txtLen: pad(80000)}},
+		{"large_several", roundSpec{n: 140, txtLen: func(i int) int { return map[int]int{5: 40000, 50: 66000, 90: 70000, 139: 200000}[i] }}},
+		{"large_300k", roundSpec{n: 6, txtLen: largeAt(2, 300000)}},
 		// F11: 128 entries of ~10 KB marshal to more than the loader's limit in one block
 		{"oversize_block", roundSpec{n: 128, txtLen: pad(10000)}},
 		{"big_entries", roundSpec{n: 45, txtLen: func(i int) int { return 30000 + 700*i }}},
@@ -1066,6 +1132,28 @@ func buildTasks(o *hx.Opts) []task {
 				if r.Chance(1, 8) {
 					sp.n = r.Range(3, 60)
 					sp.txtLen = func(int) int { return r.Range(0, 60000) }
+				} else if r.Chance(1, 3) {
+					// one or two large answers among ordinary ones
+					sp.n = r.Range(1, 40)
+					a, b := r.Intn(sp.n), r.Intn(sp.n)
+					la, lb := r.Range(30000, 130000), r.Range(60000, 75000)
+					sp.txtLen = func(i int) int {
+						switch i {
+						case a:
+							return la
+						case b:
+							return lb
+						}
+						return 0
+					}
+				}
+				if sp.via == "file" && r.Chance(2, 3) {
+					sp.pre = r.Range(1, 40)
+					sp.sameInst = r.Bool()
+					sp.cycles = r.Intn(3)
+					if r.Chance(1, 2) {
+						sp.n = 0
+					}
 				}
 				return sp
 			})
